@@ -853,7 +853,7 @@ def run_outcross(case):
                 return (True, "stopped at %r (%d repeats, start %r) although exchanging entries (%d,%d) and (%d,%d) "
                         "gives %d" % (rows1, d1, rows0, i // npar, i % npar, j // npar, j % npar, d),
                         cls("outcross-not-local-optimum"), "local-optimum")
-    for rep in range(2):
+    for rep in range(int(case.get("reps", 2))):
         x2 = _oc_build(case)
         outcross_shuffle(x2, _mk_rng(case["rng"]))
         if not numpy.array_equal(x, x2):
@@ -913,6 +913,80 @@ def gen_outcross(rng, tier, layouts):
         yield _oc_case(rows, (ncross, nparent), rng.choice(layouts), kinds[t % 3], rng.randrange(2 ** 31), dtype)
 
 
+def _canon_tables(ncross, nparent, nval):
+    """all ncross x nparent tables over nval values with >= 1 repeat inside a cross"""
+    for flat in itertools.product(range(nval), repeat=ncross * nparent):
+        rows = [list(flat[r * nparent:(r + 1) * nparent]) for r in range(ncross)]
+        if _dups(rows) >= 1:
+            yield rows
+
+
+def gen_outcross_seeds(rng, tier):
+    """many (table, generator state) pairs on small duplicate-rich tables: whether the
+    hill climber ends in a true local optimum may depend on the order in which the
+    generator presents the exchange pairs, so every table is run from several states.
+    One call per pair (reps=0; reproducibility is covered by the other rings)."""
+    thorough = tier == "thorough"
+
+    def seeds(nrs, ngen):
+        out = [("RandomState", rng.randrange(2 ** 31)) for _ in range(nrs)]
+        out += [("Generator", rng.randrange(2 ** 31)) for _ in range(ngen)]
+        return out
+
+    def emit(rows, nrs, ngen):
+        shape = (len(rows), len(rows[0]))
+        for kind, seed in seeds(nrs, ngen):
+            c = _oc_case(rows, shape, "C", kind, seed)
+            c["reps"] = 0
+            yield c
+
+    # (1) ALL 4x2 tables over 3 values with >= 3 repeats inside crosses (729 tables: three or four
+    #     crosses of an individual with itself, e.g. [[0,0],[1,1],[0,0],[1,2]], [[3,3],[2,2],[1,1],[1,1]]):
+    #     many improving exchanges are needed and equal values sit at many position pairs
+    pool = list(_canon_tables(4, 2, 3))
+    heavy = [t for t in pool if _dups(t) >= 3]
+    for rows in heavy:
+        yield from emit(rows, 8, 8) if thorough else emit(rows, 3, 2)
+    #     a sample (thorough: all) of the other tables with duplicated rows / without
+    light = [t for t in pool if _dups(t) < 3]
+    duprow = [t for t in light if len(set(map(tuple, t))) < 4]
+    for rows in (duprow if thorough else rng.sample(duprow, 150)):
+        yield from emit(rows, 2, 2)
+    rest = [t for t in light if len(set(map(tuple, t))) == 4]
+    for rows in (rest if thorough else rng.sample(rest, 50)):
+        yield from emit(rows, 2, 2)
+    # (2) 4x2 tables over 4 values, mostly self-crosses [v,v] and duplicated rows
+    for _ in range(1500 if thorough else 130):
+        while True:
+            rows = []
+            for _r in range(4):
+                v = rng.randrange(4)
+                rows.append([v, v] if rng.random() < 0.7 else [v, rng.randrange(4)])
+            if rng.random() < 0.5:
+                rows[rng.randrange(4)] = list(rows[rng.randrange(4)])
+            if _dups(rows) >= 2:
+                break
+        yield from emit(rows, 4, 4)
+    # (3) 5x2, 6x2, 4x3, 3x3, 3x4 tables from few individuals, many repeats inside crosses
+    for _ in range(1500 if thorough else 120):
+        ncross, nparent = rng.choice([(5, 2), (5, 2), (4, 3), (4, 3), (3, 3), (3, 4), (6, 2)])
+        nval = rng.choice([2, 3, 3, 4])
+        while True:
+            rows = []
+            for _r in range(ncross):
+                if rng.random() < 0.6:
+                    v = rng.randrange(nval)
+                    row = [v] * nparent
+                    if nparent > 2 and rng.random() < 0.5:
+                        row[rng.randrange(nparent)] = rng.randrange(nval)
+                else:
+                    row = [rng.randrange(nval) for _ in range(nparent)]
+                rows.append(row)
+            if _dups(rows) >= 2:
+                break
+        yield from emit(rows, 3, 3)
+
+
 def _oc_nontrivial(case):
     return _dups(case["x"]) >= 1 and len(case["x"]) >= 2
 
@@ -944,6 +1018,19 @@ def u_ring_outcross_layout(ctx):
     _drive(ctx, gen_outcross(ctx.rng, ctx.tier, ["F", "T", "view"]), run_outcross, _oc_nontrivial, _oc_sample)
 
 
+@unit(P, "ring[outcross_shuffle local optimum over many generator states]", "R", bounded=True,
+      targets=[SAMPLING + ":outcross_shuffle"],
+      note="bounded: all 729 4x2 tables over 3 values with >= 3 repeats inside crosses x 5 generator states "
+           "(3 RandomState + 2 Generator; thorough 16), 200 (thorough: all 4536) other 4x2 tables over 3 values with a "
+           "repeat x 4 states, 130 (1500) 4x2 tables over 4 values (mostly self-crosses) x 8 states, 120 (1500) "
+           "5x2/6x2/4x3/3x3/3x4 tables from 2-4 individuals x 6 states; one call per (table, state) pair")
+def u_ring_outcross_seeds(ctx):
+    ctx.rule = ("duplicate-rich small cross tables, each run from several generator states of both generator classes "
+                "(the end point of the stochastic descent depends on the order of the exchange pairs); oracle: multiset, "
+                "monotone, brute-force local optimality; distinct by (table, generator state)")
+    _drive(ctx, gen_outcross_seeds(ctx.rng, ctx.tier), run_outcross, _oc_nontrivial, _oc_sample)
+
+
 # ---------------------------------------------------------------------------
 # replay
 # ---------------------------------------------------------------------------
@@ -966,4 +1053,5 @@ REPLAYERS = {
     "ring[axis_shuffle values stay in requested slices]": run_case,
     "ring[outcross_shuffle multiset, monotone, local optimum]": run_case,
     "ring[outcross_shuffle non-contiguous cross tables]": run_case,
+    "ring[outcross_shuffle local optimum over many generator states]": run_case,
 }
